@@ -43,6 +43,20 @@ def edit_parsetab(root, fn):
     open(p, "w").write(fn(s))
 
 
+def corrupt_actions(src):
+    """change what the cached tables do for `CREATE TABLE`: the stale file must not be believed"""
+    import ast as _ast
+    out = []
+    for line in src.splitlines(True):
+        if line.startswith("_lr_action_items = "):
+            d = _ast.literal_eval(line[len("_lr_action_items = "):])
+            states, acts = d["TABLE"]
+            d["TABLE"] = (states, [(-7 if a > 0 else a) for a in acts])
+            line = "_lr_action_items = %r\n" % (d,)
+        out.append(line)
+    return "".join(out)
+
+
 def make_state(name):
     sc = Scratch()
     pt = os.path.join(sc.root, "simple_ddl_parser", "parsetab.py")
@@ -51,8 +65,9 @@ def make_state(name):
         if os.path.exists(pt):
             os.remove(pt)
     elif name == "stale_signature":
+        # a cache left over from ANOTHER grammar: different signature and different content
         if os.path.exists(pt):
-            edit_parsetab(sc.root, lambda s: s.replace("_lr_signature = '", "_lr_signature = 'STALE ", 1))
+            edit_parsetab(sc.root, lambda s: corrupt_actions(s.replace("_lr_signature = '", "_lr_signature = 'STALE ", 1)))
     elif name == "old_version":
         if os.path.exists(pt):
             edit_parsetab(sc.root, lambda s: s.replace("_tabversion = '3.10'", "_tabversion = '3.8'", 1))
@@ -99,6 +114,12 @@ def run(ctx, res):
             if fresh and any(d["ok"][k] != fresh[k] for k in ("action", "goto", "prods")):
                 res.violation("cache", "tables held by the live parser differ from a fresh generation (state %s, %s construction)" % (st, which),
                               state=st, oracle="tables_in_use", digests=d["ok"], fresh=fresh)
+        if st in ("missing", "stale_signature", "old_version", "readonly_missing"):
+            # correspondence with Model/Cache.v (used_in c = false for these states): PLY must have regenerated
+            if dg.get("ok", {}).get("kind") == "MiniProduction":
+                res.violation("cache", "cache state %s: the library used the cached table file although the model's decision "
+                              "function (and PLY's signature/version check) says it must regenerate" % st, state=st, tie=True,
+                              layer="correspondence F (cache decision)")
         if st == "valid":
             res.notes.append("valid state: productions are %s (MiniProduction = read from parsetab.py)" % dg.get("ok", {}).get("kind"))
             if ctx.gen_meta and ctx.gen_meta.get("parsetab_sig_matches") and dg.get("ok", {}).get("kind") != "MiniProduction":
